@@ -336,11 +336,11 @@ def jobs(tier, gen_dir):
             enforce(k, "/N=%d" % N, lc=False, repl=repl, defines={"C01_N": N}, params={"num_detectors_per_ring": N})
         out.append(Job("c01/lemma_exchange/N=%d" % N, HARNESS, "h_lemma_exchange", kind="lemma", kernels=["K_get_bin_for_det_pair"], flags=CHK,
                        no_base_flags=True, replace=["K_get_bin_for_det_pair"], defines={"C01_N": N}, params={"num_detectors_per_ring": N},
-                       min_obligations=4, timeout=300, backend="kissat"))
+                       min_obligations=4, timeout=1200, backend="kissat"))
         out.append(Job("c01/lemma_roundtrip/N=%d" % N, HARNESS, "h_lemma_roundtrip", kind="lemma",
                        kernels=["K_get_det_pos_pair_for_bin", "K_get_bin_for_det_pos_pair"], flags=CHK, no_base_flags=True,
                        replace=["K_get_det_pos_pair_for_bin", "K_get_bin_for_det_pos_pair"], defines={"C01_N": N},
-                       params={"num_detectors_per_ring": N}, min_obligations=4, timeout=300, backend="kissat"))
+                       params={"num_detectors_per_ring": N}, min_obligations=4, timeout=1200, backend="kissat"))
     RING = [("K_get_num_axial_poss_per_ring_inc", [], False),
             ("K_get_segment_num_for_ring_difference", ["RD2SEG_READ", "K_init_ring_diff_arrays_if_not_done_yet"], False),
             ("K_get_segment_axial_pos_num_for_ring_pair", ["K_get_segment_num_for_ring_difference", "K_get_num_axial_poss_per_ring_inc"], False),
